@@ -543,7 +543,17 @@ typedef etrs_st *etrs_t;
 	g2_new((A)->hz);														\
 
 #elif ALLOC == AUTO
-#define bgn_new(A)				/* empty */
+#define bgn_new(A)															\
+	bn_new((A)->x);															\
+	bn_new((A)->y);															\
+	bn_new((A)->z);															\
+	g1_new((A)->gx);														\
+	g1_new((A)->gy);														\
+	g1_new((A)->gz);														\
+	g2_new((A)->hx);														\
+	g2_new((A)->hy);														\
+	g2_new((A)->hz);														\
+
 #endif
 
 /**
